@@ -51,6 +51,7 @@ type Fx struct {
 	inAtomic      bool
 	loadFromEntry bool
 	loopHeads     map[string]*State
+	loopEntries   map[string]*State
 }
 
 type unsupported struct{ msg string }
